@@ -386,6 +386,23 @@ def run(ck: Check, prog: Program) -> None:
         p2.append(('FALLBACKS', 'mocked reply is not awaitable in async mode', onr.node.lineno,
                    '_on_request must return an awaitable for every reply when the patched transport is async (the replacement awaits it), '
                    'and the plain text only when it is sync'))
+    # the async mode is switched on exactly when the transport being patched is a coroutine function
+    scfg = CFG(st, prog)
+    flag_ok = False
+    flag_why = 'start() never sets self._async_resp'
+    for n in scfg.stmt_nodes():
+        a = n.ast
+        if isinstance(a, ast.Assign) and len(a.targets) == 1 and dotted(a.targets[0]) == 'self._async_resp':
+            gs = guard_edges(scfg, n)
+            under = any(isinstance(g.src.ast, ast.Call) and 'iscoroutinefunction' in (dotted(g.src.ast.func) or '') and g.label == 'T' for g in gs)
+            if isinstance(a.value, ast.Constant) and a.value.value is True and under:
+                flag_ok = True
+            else:
+                flag_why = f'`{norm(a)}` under {[norm(g.src.ast)[:40] + ":" + g.label for g in gs]}'
+    if not flag_ok:
+        p2.append(('FALLBACKS', 'async mode is not switched on for coroutine transports', st.node.lineno,
+                   f'start() must set self._async_resp = True when the patched transport is a coroutine function ({flag_why}): otherwise the '
+                   f'synchronous replacement is installed for an async client and a passthrough hands back an un-awaited coroutine'))
     for rule in ('FALLBACKS', 'ELEMENTWISE'):
         bad = [p for p in p2 if p[0] == rule]
         ck.ob(rule, f'_on_request: {rule}', not bad)
